@@ -138,7 +138,22 @@ def run(facts):
             # self.into(): <Bytes as Into<BytesMut>>::into == <BytesMut as From<Bytes>>::from, applied to self
             return isinstance(e, tuple) and e[0] == "call" and (e[1].endswith("::into") or ("From<bytes::Bytes>" in e[1] and e[1].endswith("::from"))) \
                 and e[2] and e[2][0] == ("param", 1)
-        if not any(v == "Ok" and is_conv(e) for v, e in ta):
+        def via_into_mut_slot(e):
+            # the conversion written out: a crate helper that receives self and picks the `into_mut` slot of self's vtable
+            # (`self.consume_with(|vtable| vtable.into_mut)`, `consume(self, vtable.into_mut)`) - what `From<Bytes> for BytesMut` consists of
+            from .flow import return_expr, walk
+            if not (isinstance(e, tuple) and e and e[0] == "call" and e[2] and e[2][0] == ("param", 1) and len(facts.by_id.get(e[1], [])) == 1):
+                return False
+            for a in e[2][1:]:
+                a = canon(a)
+                tree = a
+                if isinstance(a, tuple) and a and a[0] == "closure" and facts.by_did.get(a[1]) is not None:
+                    tree = canon(return_expr(facts.by_did[a[1]], facts, inline=False))
+                names = [y[2] for y in walk(tree) if isinstance(y, tuple) and len(y) == 3 and y[0] == "field" and y[2] in ("clone", "into_vec", "into_mut", "is_unique", "drop")]
+                if names == ["into_mut"]:
+                    return True
+            return False
+        if not any(v == "Ok" and (is_conv(e) or via_into_mut_slot(e)) for v, e in ta):
             probs.append("unique edge does not return Ok(self.into())")
         if not any(v == "Err" and e == ("param", 1) for v, e in fa):
             probs.append("shared edge does not return Err(self)")
